@@ -137,14 +137,32 @@ def generate(ctx):
                 c, _, _ = _relation_labels(kind, rng)
                 if rng.random() < 0.5:
                     c = list(a)
+            other_form = rng.choice(['index', 'index', 'list', 'array'])
+            if rng.random() < 0.08 and kind != 'auto':
+                # an empty receiver: whatever the operation returns for it must still be a set of labels
+                a, b, rel = [], (a if rng.random() < 0.7 else b), 'empty_receiver'
+            if other_form != 'index' and not kind.startswith('hier') and b and rng.random() < 0.2:
+                # a plain list / array operand may repeat labels; the result may not
+                b = list(b) + [rng.choice(b) for _ in range(rng.randint(1, 2))]
+                rng.shuffle(b)
+                rel = rel + '+other_repeats'
             yield {'t': 'setop', 'kind': kind, 'op': rng.choice(['union', 'intersection', 'difference']), 'a': a, 'b': b, 'c': c,
-                   'rel': rel, 'other_form': rng.choice(['index', 'index', 'list', 'array'])}
+                   'rel': rel, 'other_form': other_form}
         elif r < 0.62:
             kind = rng.choice(_LABEL_KINDS)
             a, b, rel = _relation_labels(kind, rng)
             da, db, ops = rng.choice(COMBOS)
-            yield {'t': 'series_op', 'kind': kind, 'la': a, 'lb': b, 'rel': rel, 'da': da, 'db': db, 'op': rng.choice(ops),
-                   'va': _vals(da, len(a), rng), 'vb': _vals(db, len(b), rng), 'perm_seed': rng.randrange(1 << 30)}
+            case = {'t': 'series_op', 'kind': kind, 'la': a, 'lb': b, 'rel': rel, 'da': da, 'db': db, 'op': rng.choice(ops),
+                    'va': _vals(da, len(a), rng), 'vb': _vals(db, len(b), rng), 'perm_seed': rng.randrange(1 << 30)}
+            if rng.random() < 0.15 and kind in ('auto', 'int', 'str', 'IndexDate') and da == db and len(a) >= 2:
+                # the second operand is a positional slice of the first (reversed, stepped, offset): its labels are the sliced labels,
+                # whatever shortcut the index took while slicing
+                sl = rng.choice([(None, None, -1), (None, None, 2), (1, None, 2), (None, None, -2), (1, None, None), (None, -1, None), (None, None, 3)])
+                case['derive_b'] = sl
+                case['lb'] = list(a[slice(*sl)])
+                case['vb'] = list(case['va'][slice(*sl)])
+                case['rel'] = 'derived_slice'
+            yield case
         elif r < 0.82:
             rk, ck = rng.choice(['str', 'int', 'IndexDate', 'auto', 'hier2']), rng.choice(['str', 'int', 'negint', 'auto'])
             ra, rb, rrel = _relation_labels(rk, rng, 4)
@@ -265,7 +283,7 @@ def _check_setop(case, ctx):
     import static_frame as sf
     kind, op, a, b, c = case['kind'], case['op'], case['a'], case['b'], case['c']
     ca, cb = [cs(x) for x in a], [cs(x) for x in b]
-    nontrivial = case['rel'] in ('permuted', 'overlap', 'subset', 'disjoint') and len(a) >= 1
+    nontrivial = (case['rel'].split('+')[0] in ('permuted', 'overlap', 'subset', 'disjoint') and len(a) >= 1) or case['rel'].startswith('empty_receiver')
     ctx.evaluation(repr(case), nontrivial)
     ctx.tally('setop', f"{op}:{case['rel']}")
     ctx.tally('set_kind', kind)
@@ -280,7 +298,16 @@ def _check_setop(case, ctx):
         elif case['other_form'] == 'list':
             args.append(list(o))
         else:
-            args.append(L.build_index(kind, o).values if kind not in ('IndexDate', 'IndexYearMonth') else np.array(o, dtype=ia.values.dtype))
+            if kind in ('IndexDate', 'IndexYearMonth'):
+                args.append(np.array(o, dtype=ia.values.dtype))
+            else:
+                # the array an index of these labels would hold, with the operand's repetitions restored
+                uniq = []
+                for x in o:
+                    if all(cs(x) != cs(u) for u in uniq):
+                        uniq.append(x)
+                base = L.build_index(kind, uniq).values
+                args.append(base[[next(i for i, u in enumerate(uniq) if cs(u) == cs(x)) for x in o]] if len(o) else base)
     try:
         out = getattr(ia, op)(*args)
     except Exception as e:
@@ -324,6 +351,9 @@ def _check_series_op(case, ctx):
     kind, la, lb, da, db, op = case['kind'], case['la'], case['lb'], case['da'], case['db'], case['op']
     va, vb = case['va'], case['vb']
     sa, sb = _series(kind, la, va, da), _series(kind, lb, vb, db)
+    if case.get('derive_b'):
+        sb = sa.iloc[slice(*case['derive_b'])]
+        ctx.tally('series_operand', 'derived_slice')
     same = [cs(x) for x in la] == [cs(x) for x in lb]
     ctx.evaluation(repr(case), not same)
     ctx.tally('series_op', f"{op}:{da}|{db}:{case['rel']}")
